@@ -22,11 +22,16 @@ META = {
     "design_ref": "DESIGN.md §4.4 C20",
 }
 SPEC = "specs/Handshake"
-PROTO = ["SendAct1", "AnswerAct1", "CheckAct2", "Finalize", "AlterField", "Replay"]
+PROTO = ["SendAct1", "AnswerAct1", "CheckAct2", "Finalize", "AlterField", "AlterNonceBits", "AlterWord", "Replay"]
+ATTACKS = ("AlterField", "AlterNonceBits", "AlterWord", "AlterEnvelope", "Replay")
 
 
 def attacked(b):
-    return any(s["a"] in ("AlterField", "AlterEnvelope", "Replay") for s in b["steps"])
+    return any(s["a"] in ATTACKS for s in b["steps"])
+
+
+def flipped(b):
+    return any(s["a"] in ("AlterNonceBits", "AlterWord") for s in b["steps"])
 
 
 def run(ctx):
@@ -42,28 +47,40 @@ def run(ctx):
     bare = ctx.read_emitted(g, "behaviours.ndjson")
     g = ctx.tlc(SPEC, "Gen_Handshake", cfg="Gen_Wire", workers=1, label="Gen_Wire", dump_trace=False, timeout=1500)
     wire = ctx.read_emitted(g, "behaviours.ndjson")
-    if len(bare) < 5000 or len(wire) < 5000:
+    if len(bare) < 10000 or len(wire) < 30000:
         ctx.broken("behaviour generation too small: %d bare, %d wire" % (len(bare), len(wire)))
     ctx.note("%d behaviours of the acts, %d of the wire path" % (len(bare), len(wire)))
     rnd = random.Random(ctx.seed)
     if not ctx.thorough:
         # the behaviours that end with both sides completed although attacked / mismatched cannot exist (CompleteIff);
         # sample the rest, attacked ones first
-        wa = [b for b in wire if attacked(b)]
+        wf = [b for b in wire if flipped(b)]
+        wa = [b for b in wire if attacked(b) and not flipped(b)]
         wn = [b for b in wire if not attacked(b)]
-        wire = rnd.sample(wa, min(len(wa), 500)) + rnd.sample(wn, min(len(wn), 60))
+        wire = rnd.sample(wf, min(len(wf), 400)) + rnd.sample(wa, min(len(wa), 400)) + rnd.sample(wn, min(len(wn), 60))
     go1 = ctx.gotest("pkg/net/security/handshake", "^TestVerif_C20_Acts$", ["c20_test.go"],
                      inputs={"behaviours_bare.ndjson": bare}, label="acts", timeout=ctx.pick(900, 3000))
     ctx.absorb(go1)
     go2 = ctx.gotest("pkg/net/libp2p", "^TestVerif_C20_Wire$", ["c20_test.go"],
                      inputs={"behaviours_wire.ndjson": wire}, label="wire", timeout=ctx.pick(1200, 3400))
     ctx.absorb(go2)
+    # every byte position of the challenge (and of the raw nonces) must have been flipped in flight
+    need_chal = range(32) if ctx.thorough else (0, 7, 8, 15, 16, 23, 24, 31)
+    need_nonce = range(8) if ctx.thorough else (0, 7)
+    for name, go in (("acts", go1), ("wire", go2)):
+        c = (go.reports.get(name) or {}).get("counters") or {}
+        miss = ["challenge byte %d" % k for k in need_chal if not c.get("chal_byte_%d" % k)] + \
+               ["nonce byte %d" % k for k in need_nonce if not c.get("nonce_byte_%d" % k)]
+        if miss and not ctx.violations:
+            ctx.broken("the %s replay never flipped %s" % (name, ", ".join(miss)))
+        ctx.extra.setdefault("bytes_flipped", {})[name] = sorted(k for k in c if "_byte_" in k)
     return ctx.finish(
         level="model_checking",
         rule="TLC: all nonce values (3), protocol id pairs (2x2), recorded sessions and attacker schedules within the budget. Replay: "
              "every behaviour of the acts model (one attacker action) on the real state machines; the wire model (2 nonce values, "
-             "two attacker actions) %s on the real connection ends; non-trivial = behaviours with an attacker action or "
-             "different protocol ids." % ("in full" if ctx.thorough else "sampled (500 attacked + 60 plain)"),
+             "two attacker actions) %s on the real connection ends; behaviours with a bit flip run three times (first / middle / "
+             "last byte of the word); non-trivial = behaviours with an attacker action or different protocol ids." % (
+                 "in full" if ctx.thorough else "sampled (400 with bit flips + 400 otherwise attacked + 60 plain)"),
         assumptions=["the challenge hash is injective (checked on the nonce pairs used)",
                      "signatures cannot be forged: the attacker only signs with its own key or reuses recorded signatures",
                      "the acts without envelopes are claimed under one attacker action per session",
